@@ -721,6 +721,81 @@ func init() {
 	register("C05", "", ruleShortPred)
 }
 
+// lowerGuard: the block reached when Compare(probe, base) >= 0, the other edge returning false
+func lowerGuard(e *Eco, fn *ssa.Function, probe, base ssa.Value) *ssa.BasicBlock {
+	for _, b := range fn.Blocks {
+		iff, ok := b.Instrs[len(b.Instrs)-1].(*ssa.If)
+		if !ok {
+			continue
+		}
+		bo, ok := iff.Cond.(*ssa.BinOp)
+		if !ok {
+			continue
+		}
+		call, ok := bo.X.(*ssa.Call)
+		if !ok || call.Call.StaticCallee() != e.Compare || len(call.Call.Args) != 2 || call.Call.Args[0] != probe || call.Call.Args[1] != base {
+			continue
+		}
+		if z, okz := constInt(bo.Y); !okz || z != 0 {
+			continue
+		}
+		retFalse := func(s *ssa.BasicBlock) bool {
+			ret, ok := s.Instrs[len(s.Instrs)-1].(*ssa.Return)
+			if !ok || len(ret.Results) != 1 {
+				return false
+			}
+			cv, ok := ret.Results[0].(*ssa.Const)
+			return ok && cv.Value != nil && cv.Value.Kind() == constant.Bool && !constant.BoolVal(cv.Value)
+		}
+		switch {
+		case bo.Op == token.LSS && retFalse(b.Succs[0]):
+			return b.Succs[1]
+		case bo.Op == token.GEQ && retFalse(b.Succs[1]):
+			return b.Succs[0]
+		}
+	}
+	return nil
+}
+
+// calledUnderGuard: "" when every call of fn comes from a predicate of (probe, base) whose own guard
+// dominates the call and which hands its probe and base on
+func calledUnderGuard(p *Prog, e *Eco, fn *ssa.Function, vp []*ssa.Parameter) string {
+	n := p.CG.Nodes[fn]
+	if n == nil || len(n.In) == 0 {
+		return "no resolved caller"
+	}
+	idx := func(prm *ssa.Parameter) int {
+		for i, q := range fn.Params {
+			if q == prm {
+				return i
+			}
+		}
+		return -1
+	}
+	pi, bi := idx(vp[0]), idx(vp[1])
+	for _, ce := range n.In {
+		if ce.Site == nil {
+			return "an unresolved call site"
+		}
+		g := ce.Caller.Func
+		var gv []*ssa.Parameter
+		for _, prm := range g.Params {
+			if pt, ok := prm.Type().Underlying().(*types.Pointer); ok && types.Identical(pt.Elem(), e.VerT) {
+				gv = append(gv, prm)
+			}
+		}
+		args := ce.Site.Common().Args
+		if len(gv) != 2 || pi >= len(args) || bi >= len(args) || args[pi] != ssa.Value(gv[0]) || args[bi] != ssa.Value(gv[1]) {
+			return "called from " + g.Name() + " with other operands than its probe and base"
+		}
+		guard := lowerGuard(e, g, gv[0], gv[1])
+		if guard == nil || !guard.Dominates(ce.Site.Block()) {
+			return "called from " + g.Name() + " outside its guard"
+		}
+	}
+	return ""
+}
+
 // ---- R-LOWER-DOM: nothing older than the base is contained (direct predicates) -------------------------------
 func ruleLowerDom(p *Prog, r *Report) {
 	n := 0
@@ -779,7 +854,13 @@ func ruleLowerDom(p *Prog, r *Report) {
 				}
 			}
 			if guard == nil {
-				r.Bad("R-LOWER-DOM", key, p.FnPos(fn), "no test 'Compare(probe, base) < 0 -> false' found: versions older than the base are not excluded by the order")
+				// a helper of such a predicate: every call of it is made under the caller's guard with the
+				// caller's (probe, base)
+				if why := calledUnderGuard(p, e, fn, vp); why == "" {
+					r.Ok("R-LOWER-DOM", key, p.FnPos(fn), "helper: every call site is dominated by the caller's test Compare(probe, base) >= 0 and receives the caller's probe and base")
+				} else {
+					r.Bad("R-LOWER-DOM", key, p.FnPos(fn), "no test 'Compare(probe, base) < 0 -> false' found ("+why+"): versions older than the base are not excluded by the order")
+				}
 				continue
 			}
 			bad := ""
